@@ -15,6 +15,7 @@ import (
 	"sort"
 	"strconv"
 	"strings"
+	"time"
 
 	"github.com/LiskHQ/lisk-engine/pkg/blockchain"
 	"github.com/LiskHQ/lisk-engine/pkg/consensus/sync"
@@ -372,6 +373,7 @@ func (r *Runner) reset(a map[string]string) string {
 	}
 	n.DrainEvents()
 	r.fin = n.Finalized()
+	r.slotGridOracle() // C07: the executer's slot calculator against the LIP-0014 grid (slotoracle.go)
 	return r.state("ok", nil)
 }
 
@@ -807,7 +809,9 @@ func (r *Runner) step(op string) string {
 			return r.state(res, evs)
 		}
 		lr0 := n.Exec.VerifLastBlockReceived()
+		now0 := time.Now()
 		res := n.ProcessResult(b)
+		r.tieBreakOracle(tipBefore.Header, b.Header, lr0, now0, time.Now(), res.ForkChoice) // C07 (slotoracle.go)
 		evs := n.DrainEvents()
 		out := ""
 		// LIP-0014: the receive time used by the tie-break rule is that of the current tip; a block that is dropped,
@@ -973,6 +977,9 @@ func (r *Runner) step(op string) string {
 		}
 		if tipID != nil && !bytes.Equal(n.Tip().Header.ID, tipID) {
 			r.fail("c04-restart-changed-state", fmt.Sprintf("tip after restart %x, before %x", []byte(n.Tip().Header.ID), tipID))
+		}
+		if !r.poisoned {
+			r.slotGridOracle()
 		}
 		return r.state(res, evs)
 	case "restartg":
